@@ -94,10 +94,14 @@ class CountingIter:
         return sum(len(c) for c in self.chunks[self.i:])
 
 
-class CountingSock(CountingIter):
-    """The same reads offered through the socket interface (recv), so that the parser builds a SocketUnreader: recv(n) returns
-    the next chunk (all chunks are at most 8192 bytes = max_chunk; a larger n never merges two chunks, as a socket may
-    always return less than asked)."""
+class CountingSock:
+    """The same reads offered through the socket interface only (recv; deliberately not iterable), so that the parser has to
+    build a SocketUnreader: recv(n) returns the next chunk (all chunks are at most 8192 bytes = max_chunk; a larger n never
+    merges two chunks, as a socket may always return less than asked)."""
+
+    def __init__(self, chunks):
+        self.chunks = list(chunks)
+        self.i = 0
 
     def recv(self, n):
         if self.i >= len(self.chunks):
@@ -108,6 +112,9 @@ class CountingSock(CountingIter):
             return c[:n]
         self.i += 1
         return c
+
+    def remaining(self):
+        return sum(len(c) for c in self.chunks[self.i:])
 
 
 class RecordingBody:
